@@ -20,3 +20,7 @@ func VerifC14Render(s Surface, win vaxis.Window) { s.render(win, nil) }
 func VerifC14RenderRoot(s Surface, win vaxis.Window) {
 	s.render(win.New(0, 0, int(s.Size.Width), int(s.Size.Height)), nil)
 }
+
+// VerifC14AppVaxis returns the Vaxis of an App so that the harness can read
+// the screen a frame of App.Run painted.
+func VerifC14AppVaxis(a *App) *vaxis.Vaxis { return a.vx }
